@@ -216,14 +216,34 @@ Lemma roundtrip_orig_broadcast d : bytes_ok d = true -> lenN d <= 65531 ->
   exists bs, enc_frame (OrigBroadcast d) = Ok bs /\ dec_frame bs = Ok (OrigBroadcast d) /\ lenN bs = 4 + lenN d.
 Proof. intros W H. apply (frame_roundtrip (OrigBroadcast d)); cbn [wf_msg frame_len]; [assumption|lia]. Qed.
 
-(* pdu.Address((ip, port)) *)
+(* pdu.Address((ip, port)): accepted exactly for ports 0..65535 *)
 Lemma ip_port_octets a b c d port :
   a < 256 -> b < 256 -> c < 256 -> d < 256 -> (0 <= port < 65536)%Z ->
-  exists l, ip_addr a b c d port = ABytes l /\ wf_addr (ABytes l) = true /\
+  exists l, mk_ip a b c d port = Ok (ABytes l) /\ wf_addr (ABytes l) = true /\
             firstn 4 l = [a; b; c; d] /\ Z.of_N (port_of l) = port.
 Proof.
-  intros Ha Hb Hc Hd Hp. unfold ip_addr. eexists; split; [reflexivity|].
+  intros Ha Hb Hc Hd Hp. unfold mk_ip, port_ok, ip_addr.
+  destruct ((0 <=? port)%Z && (port <=? 65535)%Z) eqn:E; [|lia].
+  eexists; split; [reflexivity|].
   rewrite Z.mod_small by lia. cbn [app be2 wf_addr firstn port_of skipn]. repeat split.
   - unfold lenN, bytes_ok, byte_ok, be2; cbn [length forallb]. lia.
   - lia.
+Qed.
+
+Lemma ip_port_refused a b c d port :
+  (port < 0 \/ 65535 < port)%Z -> mk_ip a b c d port = Err ValueErr.
+Proof.
+  intros H. unfold mk_ip, port_ok.
+  destruct ((0 <=? port)%Z && (port <=? 65535)%Z) eqn:E; [lia|reflexivity].
+Qed.
+
+(* a message none of whose Address constructions succeeded is never encoded *)
+Lemma all_ok_refused rs1 a b c d port rs2 :
+  (port < 0 \/ 65535 < port)%Z -> (forall r, In r rs1 -> exists x, r = Ok x) ->
+  all_ok (rs1 ++ mk_ip a b c d port :: rs2) = Err ValueErr.
+Proof.
+  intros H. induction rs1 as [|r rs1 IH]; intros Hok; cbn [app all_ok].
+  - rewrite ip_port_refused by assumption. reflexivity.
+  - destruct (Hok r (or_introl eq_refl)) as (x & ->). cbn [bind]. apply IH.
+    intros r' Hr. apply Hok. now right.
 Qed.
